@@ -201,6 +201,9 @@ defop("invert", lambda ns, x: ~x, ["IB"], lambda a, cfg, ts: _nonneg(a[0], cfg["
 defop("check_zero", lambda ns, x: x.check_zero(), ["IBF"])
 defop("check_nonzero", lambda ns, x: x.check_nonzero(), ["IF"])
 defop("check_positive", lambda ns, x: x.check_positive(), ["IBF"], lambda a, cfg, ts: _fits(a[0], cfg["b"]))
+# explicit width: "given a value in [-2^n, 2^n], check whether it is positive"
+defop("check_positive_n", lambda ns, x, n: x.check_positive(n), ["I", "i"], lambda a, cfg, ts: _fits(a[0], a[1]),
+      weight=0.4, params={1: ("k", 0, 6)})
 defop("assert_zero", lambda ns, x: x.assert_zero(), ["IBF"], lambda a, cfg, ts: a[0] == 0, weight=0.5)
 defop("assert_nonzero", lambda ns, x: x.assert_nonzero(), ["IBF"], lambda a, cfg, ts: a[0] != 0, weight=0.5)
 defop("assert_positive", lambda ns, x: x.assert_positive(), ["IBF"], lambda a, cfg, ts: _nonneg(a[0], cfg["b"]), weight=0.5)
